@@ -197,7 +197,10 @@ def run(p: Program, rep: Report, tier: str) -> None:
         n_sinks += 1
         origins = ta.expr(init, c.args[0] if c.args else None, env, route)
         if origins:
-            rep.violation("R8.3", construct(init, text="re.compile <- " + ", ".join(sorted(origins))), where(init, c),
+            # the construct names WHAT flows (slices of the route text), not the index arithmetic of the slicing loop
+            import re as _re
+            flows = sorted({_re.sub(r"\[.*\]$", "[...]", o) for o in origins})
+            rep.violation("R8.3", construct(init, text="re.compile <- " + ", ".join(flows)), where(init, c),
                           "literal route text reaches re.compile without re.escape: regex metacharacters in a route are interpreted (e.g. '/a.b' matches '/axb')",
                           unescaped_flows=sorted(origins))
         else:
@@ -416,27 +419,45 @@ def _unbounded(regex: str) -> bool:
 
 
 def _inside_value_error_handler(p: Program, matches: FuncInfo) -> bool:
-    """Is the to_python call in Route.matches inside a try whose handler catches ValueError
-    (or broader) and yields the no-match result?"""
-    for node in ast.walk(matches.node):
-        if isinstance(node, ast.Call) and isinstance(node.func, ast.Attribute) and node.func.attr == "to_python":
-            n = node
-            while n is not matches.node:
-                par = n._parent  # type: ignore[attr-defined]
-                if isinstance(par, ast.Try) and any(n is b or _has(b, n) for b in par.body):
-                    for h in par.handlers:
-                        names = []
-                        if h.type is None:
-                            names = ["BaseException"]
-                        elif isinstance(h.type, ast.Tuple):
-                            names = [ast.unparse(e) for e in h.type.elts]
-                        else:
-                            names = [ast.unparse(h.type)]
-                        if any(x in ("ValueError", "Exception", "BaseException", "ArithmeticError") for x in names):
-                            if "ValueError" in names or "Exception" in names or "BaseException" in names:
-                                return True
-                n = par
-    return False
+    """Is every to_python call made on behalf of Route.matches - in matches itself or in a private helper it calls - inside a
+    try whose handler catches ValueError (or broader)? A call in a helper counts as guarded when every call of that helper
+    from the unit is."""
+    from ..common import with_helpers
+    unit = with_helpers(p, matches)
+
+    def guarded_here(fn: FuncInfo, node: ast.AST) -> bool:
+        n = node
+        while n is not fn.node:
+            par = n._parent  # type: ignore[attr-defined]
+            if isinstance(par, ast.Try) and any(n is b or _has(b, n) for b in par.body):
+                for h in par.handlers:
+                    if h.type is None:
+                        names = ["BaseException"]
+                    elif isinstance(h.type, ast.Tuple):
+                        names = [ast.unparse(e) for e in h.type.elts]
+                    else:
+                        names = [ast.unparse(h.type)]
+                    if "ValueError" in names or "Exception" in names or "BaseException" in names:
+                        return True
+            n = par
+        return False
+
+    def guarded(fn: FuncInfo, node: ast.AST, depth: int = 0) -> bool:
+        if guarded_here(fn, node):
+            return True
+        if fn is matches or depth > 3:
+            return False
+        sites = [(f, c) for f in unit for c in calls_in(f, deep=True) if p.resolve_call(f, c) is fn]
+        return bool(sites) and all(guarded(f, c, depth + 1) for f, c in sites)
+
+    found = False
+    for f in unit:
+        for node in ast.walk(f.node):
+            if isinstance(node, ast.Call) and isinstance(node.func, ast.Attribute) and node.func.attr == "to_python":
+                found = True
+                if not guarded(f, node):
+                    return False
+    return found
 
 
 def _has(root: ast.AST, node: ast.AST) -> bool:
